@@ -28,9 +28,10 @@ def run_one(d: Path, seed: str) -> tuple[str, str]:
         meta = _json.loads((d / "meta.json").read_text())
     except Exception:  # noqa: BLE001
         meta = {}
-    if meta.get("verif_obsolete"):
-        # a later `fix:` commit made kopf robust against this change: it no longer violates this property
-        return d.name, "obsolete (no longer a violation of %s): %s" % (prop, meta["verif_obsolete"])
+    obsolete = meta.get("verif_obsolete")
+    # obsolete: a later `fix:` commit made kopf robust against this change; it no longer violates the property
+    # (the seeder's demo passes on HEAD+patch). It is still run: the check may say `no-failing-input-found` (the
+    # correspondence breaks) or nothing, but a CONCRETE failing input would be a false alarm to look into.
     patch = d / "patch_on_fixed_tree.diff"
     if not patch.exists():
         patch = d / "patch.diff"
@@ -49,6 +50,11 @@ def run_one(d: Path, seed: str) -> tuple[str, str]:
                            timeout=3600)
         out = r.stdout + r.stderr
         viol = [l for l in out.splitlines() if l.startswith("VIOLATION")]
+        if obsolete:
+            if r.returncode == 1 and viol and not viol[0].rstrip().endswith("no-failing-input-found"):
+                return d.name, "harness SUSPECT: concrete replay on an obsolete seed (false alarm?) " + viol[0]
+            what = viol[0] if viol else f"rc={r.returncode}"
+            return d.name, f"obsolete (no longer a violation of {prop}; check: {what}): {obsolete}"
         if r.returncode == 1 and viol:
             return d.name, ("caught-no-input " if viol[0].rstrip().endswith("no-failing-input-found") else "caught ") + viol[0]
         if r.returncode == 0:
